@@ -1,3 +1,4 @@
+import VProps.TransLevels
 import VProps.C08
 #print axioms V.C08.checks_imply_no_escalation
 #print axioms V.C08.accepted_notifications
@@ -11,3 +12,6 @@ import VProps.C08
 #print axioms V.C08.accepted_pl_notifications
 #print axioms V.C08.integer_only_levels_spelled
 #print axioms V.C08.accepted_pl_integer
+#print axioms V.Trans.Levels.userLevel_eq_model
+#print axioms V.Trans.Levels.eventLevel_eq_model
+#print axioms V.Trans.Levels.notificationLevel_eq_model
